@@ -94,7 +94,7 @@ def run(chk, tier):
                 'value itself. K7: interior-mutability census of the state reachable from Unimock (atomics, the MutexIsh lock, '
                 'OnceCells of the per-instance chains, type-erased user closures) and no manual Send/Sync; K1: no Arc::get_mut-style '
                 'access to the shared state; closures under the lock contain no user code.')
-    for cfg in configs(tier, thorough=('std', 'mocks', 'nostd-spin', 'nostd')):
+    for cfg in configs(tier, quick=('std', 'nostd'), thorough=('std', 'mocks', 'nostd-spin', 'nostd')):
         F = load(chk, cfg)
         callpath = F.reachable_fns([F.fn('private::eval')])
         from props import evalcore as E10
@@ -160,6 +160,9 @@ def run(chk, tier):
 
         # ---- R10.2 the position *is* the RMW return value
         position_is_rmw(chk, F, 'R10.2', cfg)
+        # R10.8 'after joining the threads the verdict equals that of the same calls made sequentially': what a worker's clone did reaches the
+        # original only through the shared counters and the shared error list - never through a flag that silences it (teardown decision table)
+        L.teardown_table(chk, F, 'R10.8', cfg)
 
         # ---- R10.3 interior mutability census
         seen = set()
